@@ -40,7 +40,7 @@ theorem search_mode_members_optional :
     ∧ replaceEmptyOf .search = true
     ∧ ((docScenarios .search).all fun s => conformsCmd .search s.1 s.2) = true := by decide +kernel
 
-theorem C19_witness_non_utf8_plan_null :
+theorem plan_member_null_only_if_unserialisable :
     conformsCmdIn .search { docCtxOf .search false false with serFails := true } = false
     ∧ conformsCmdIn .plan { docCtxOf .plan false false with serFails := true } = false
     ∧ conformsCmdIn .rename { docCtxOf .rename false false with serFails := true } = true
